@@ -14,6 +14,10 @@ LineKinds == {<<"same", h>> : h \in Hosts} \cup {<<"other", h>> : h \in Hosts}  
           \cup {<<"foreign", "-">>, <<"ca", "-">>, <<"cmt", "-">>, <<"blank", "-">>}
 Files == UNION {[1..n -> LineKinds] : n \in 0..MaxLines}
 Answers == {"y", "n", "a", "dy", "dn"}      \* yes, no, all, details-then-yes, details-then-no
+\* Anything else typed at the prompt (the empty line, blanks, abbreviations such as "ye", other spellings such as "YES",
+\* sentences containing an answer) is not an answer: the question is asked again and nothing is decided.  The harness
+\* types one to three such lines before the answer of the case.
+NonAnswers == {"empty", "blank", "abbreviation", "uppercase", "sentence", "garbage"}
 
 VARIABLES file, trustAll, answer, phase, batch, asked, cancelled, commands
 vars == <<file, trustAll, answer, phase, batch, asked, cancelled, commands>>
